@@ -25,7 +25,7 @@ EXTENDS RouteRef, TLC
 CONSTANTS Quick,       \* TRUE: reduced family for the quick tier (3 methods, deeper levels <= 1 handler)
           MaxSeg,      \* request = at most MaxSeg segments
           MaxDepth,    \* nesting depth explored by the dispatch machine
-          Mut          \* "none" | "search" | "reverse" | "icase" | "wrongparam" | "dollar" | "approot" | "lastwins"  (seeded faults, self-test)
+          Mut          \* "none" | "search" | "reverse" | "icase" | "wrongparam" | "dollar" | "approot" | "lastwins" | "lastchar"  (seeded faults, self-test)
                        \*   "dollar": the internal end anchor is "$" (also matches before a final newline) instead of "\z";
                        \*   only the capture-less regex_match overload is affected (the other one re-checks the span)
 
@@ -52,10 +52,23 @@ Strs(n) == IF n = 0 THEN {<<>>} ELSE LET P == Strs(n - 1) IN P \cup { x \o g : x
 Requests == Strs(MaxSeg) \cup { x \o <<10>> : x \in Strs(MaxSeg - 1) }
 
 GETb == <<71, 69, 84>>   POSTb == <<80, 79, 83, 84>>   getb == <<103, 101, 116>>   GETnl == <<71, 69, 84, 10>>
-Methods == IF Quick THEN {GETb, getb, GETnl} ELSE {GETb, POSTb, getb, GETnl}
+\* method filters: the abstract expression alt1|alt2|... (language = RouteRef!MethodOK) and the TEXT given to the
+\* code, which decides from the text whether it is a plain verb (all characters A-Z: compared as a string) or a
+\* regular expression (capture-less whole-string match)
+RECURSIVE TextOf(_)
+TextOf(p) == IF p = <<>> THEN <<>>
+             ELSE (IF p[1].k = "lit" THEN p[1].s
+                   ELSE <<40>> \o p[1].o[1] \o <<124>> \o p[1].o[2] \o <<41>>) \o TextOf(Tail(p))        \* ( a | b )
+RECURSIVE JoinBar(_)
+JoinBar(as) == IF Len(as) = 1 THEN TextOf(as[1]) ELSE TextOf(as[1]) \o <<124>> \o JoinBar(Tail(as))
+MF(as) == [k |-> "re", alts |-> as, text |-> JoinBar(as)]
 NoMeth == [k |-> "none"]
-MGet   == [k |-> "set", s |-> {GETb}, re |-> FALSE]                              \* "GET": compared as a string
-MAlt   == [k |-> "set", s |-> {GETb, POSTb}, re |-> TRUE, alts |-> <<GETb, POSTb>>]  \* "<GET or POST>": a regex, capture-less match
+MGet   == MF(<< <<L(GETb)>> >>)                                           \* GET             plain verb
+MAlt   == MF(<< <<Alt(<<GETb, POSTb>>)>> >>)                              \* (GET|POST)      ends in ")"
+MBar   == MF(<< <<L(GETb)>>, <<L(POSTb)>> >>)                             \* GET|POST        ends in a letter
+MMid   == MF(<< <<L(<<80>>), Alt(<<<<79, 83, 84>>, <<85, 84>>>>)>>, <<L(GETb)>> >>)   \* P(OST|UT)|GET
+BarText == JoinBar(<< <<L(GETb)>>, <<L(POSTb)>> >>)
+Methods == IF Quick THEN {GETb, getb, GETnl, BarText} ELSE {GETb, POSTb, getb, GETnl, BarText, <<>>}
 
 HPats == << <<L(sa)>>,                       \* /a
             <<L(ss), D>>,                    \* /<digits>
@@ -75,7 +88,8 @@ Rev(n) == [i \in 1..n |-> n + 1 - i]
 Handlers(d) ==
     LET mk(i, v, m) == [t |-> "h", id |-> i * 10 + v, pat |-> HPats[i], meth |-> m,
                         sel |-> IF v = 2 THEN Rev(NGroups(HPats[i])) ELSE Ident(NGroups(HPats[i]))]
-    IN IF d = 1 THEN { mk(i, 1, NoMeth) : i \in 1..Len(HPats) } \cup { mk(1, 2, MGet), mk(3, 2, MGet), mk(3, 3, MAlt) }
+    IN IF d = 1 THEN { mk(i, 1, NoMeth) : i \in 1..Len(HPats) } \cup { mk(1, 2, MGet), mk(3, 3, MAlt), mk(3, 4, MBar) }
+                      \cup (IF Quick THEN {} ELSE { mk(3, 2, MGet), mk(3, 5, MMid) })
        ELSE { mk(i, 1, NoMeth) : i \in 1..3 }
 Mounts(d) ==
     IF d >= MaxDepth THEN {}
@@ -127,10 +141,14 @@ MechMatch(p, s) ==
 MatchBool(p, s) == BT(p, 1, s, 1, FALSE).ok            \* capture-less regex_match
 
 Upper(m) == [i \in 1..Len(m) |-> IF m[i] >= 97 /\ m[i] <= 122 THEN m[i] - 32 ELSE m[i]]
+\* option::option(expr, method): a plain verb iff EVERY character is A-Z (seeded fault "lastchar": iff the LAST one is)
+IsUp(c) == c >= 65 /\ c <= 90
+PlainVerb(t) == IF Mut = "lastchar" THEN (t = <<>> \/ IsUp(t[Len(t)])) ELSE \A i \in 1..Len(t) : IsUp(t[i])
 MechMethod(o) ==
     \/ o.t = "m" \/ o.meth.k = "none"
     \/ LET mm == IF Mut = "icase" THEN Upper(meth) ELSE meth
-       IN IF o.meth.re THEN MatchBool(<<Alt(o.meth.alts)>>, mm) ELSE mm \in o.meth.s
+       IN IF PlainVerb(o.meth.text) THEN o.meth.text = mm
+          ELSE \E i \in 1..Len(o.meth.alts) : MatchBool(o.meth.alts[i], meth)       \* (?:alt1|alt2|...) anchored, whole string
 
 \* ------------------------------------------------------------ dispatch machine
 NoHit == [id |-> 0, args |-> <<>>]
@@ -341,6 +359,7 @@ MechLookup(entries, gone, h, sc, pa) ==
     IN IF first.id # 0 THEN first ELSE Scan(1, "legacy", NoMount)
 
 InitPools ==
+    /\ Mut \in {"none", "lastwins"}            \* (the other self-test configurations do not need these states)
     /\ mode = "pools"
     /\ meth = GETb /\ path = <<>> /\ depth = 0 /\ opts = <<>> /\ idx = 0 /\ out = "done" /\ hit = NoHit /\ taken = NoTaken
     /\ \E pl \in Lists(PMs, 1) : \E ll \in Lists(PMs, 3) : \E pa \in PoolPaths : \E pfirst \in BOOLEAN :
